@@ -20,6 +20,7 @@ RULE = ('programs = hand-written corpus (calls, recursion, exceptions, generator
         'over every executable line + beyond-EOF line + every function + absent function, incl. same-location pairs; a case is '
         'non-trivial when at least one tracepoint fires AND at least one program event of another kind/line does not')
 ASSUMPTIONS = ["a function is entered once per invocation: the 'call' events CPython delivers when a generator or coroutine is resumed are not entries",
+               'a method tracepoint given by a line of code the compiler has removed (statements after the return at the end of a function) is a don\'t-care',
                'file identity is the basename (as the statement says: a source file with that name)']
 
 KINDS = ['snapshot', 'log', 'metric', 'span']
@@ -36,8 +37,38 @@ def candidates(name):
     c += [('fn', f) for f in progs.function_names(lo.code)]
     c.append(('fn', 'absent_fn'))
     # a method tracepoint given by a line instead of a name: the function whose own code contains the line
-    c += [('fnline', ln) for ln in range(1, len(open(lo.path).read().split('\n')) + 1)]     # every line, also those without an instruction
+    # every line, also those without an instruction - but for code the compiler has removed (statements after a return at the end of a
+    # function): no line event can come from there, nothing can be placed there, and whose line it is is not defined
+    dead = dead_lines(lo)
+    c += [('fnline', ln) for ln in range(1, len(open(lo.path).read().split('\n')) + 1) if ln not in dead]
     return c
+
+
+def dead_lines(lo):
+    """Lines of statements the compiler dropped at the end of a function body (unreachable after return / raise): between the last line that
+    has an instruction in the function's code object (or a nested one) and the end of the def statement."""
+    import ast
+    import types
+    tree = ast.parse(open(lo.path).read())
+    last = {}
+
+    def walk(code):
+        m = max([ln for _, _, ln in code.co_lines() if ln is not None] + [code.co_firstlineno])
+        for const in code.co_consts:
+            if isinstance(const, types.CodeType):
+                m = max(m, walk(const))
+        last[(code.co_name, code.co_firstlineno)] = max(last.get((code.co_name, code.co_firstlineno), 0), m)
+        return m
+    walk(lo.code)
+    out = set()
+    for n in ast.walk(tree):
+        if isinstance(n, (ast.FunctionDef, ast.AsyncFunctionDef)):
+            first = min([n.lineno] + [d.lineno for d in n.decorator_list])
+            m = last.get((n.name, first))
+            if m is not None and n.body:
+                stmt_lines = {x.lineno for b in n.body for x in ast.walk(b) if hasattr(x, 'lineno')}
+                out |= {ln for ln in range(m + 1, n.end_lineno + 1) if ln in stmt_lines}
+    return out
 
 
 def owners(lo):
